@@ -792,7 +792,10 @@ TxRecoverFaults(cfg, s, ev) ==
                          \* recovered: the penalty is 0 (penalties never accrue), zero fishing rewards are booked under the
                          \* reporter's and the (original) voters' keys, the report is dropped
                          LET keys == <<g.reporter>> \o [i \in 1..Len(g.confirms) |-> g.confirms[i].w]
-                         IN DelFault(FoldLeft(LAMBDA acc, k : FishSet(acc, k), w, keys), g)
+                         IN \* the reporter's implicit first "+" has no name: booking its share writes under an EMPTY store
+                            \* key, which panics ("key is nil"); the transaction fails, so such a report can never be cleared
+                            IF \E i \in 1..Len(keys) : keys[i] = "" THEN Fail(w, "key is nil")
+                            ELSE DelFault(FoldLeft(LAMBDA acc, k : FishSet(acc, k), w, keys), g)
                      ELSE SetFault(w, g1)
     IN Tx(s, FoldLeft(one, w0, ev.faults))
 
